@@ -30,6 +30,25 @@ impl Drop for Scratch {
 }
 
 /// Write a simulated MIDAS file. `name` decides the extension the program dispatches on.
+/// Path from a name in which the private-use character U+E000 stands for the byte 0xFF: file
+/// names are byte strings on this platform and need not be UTF-8.
+pub fn os_path(s: &str) -> PathBuf {
+    use std::os::unix::ffi::OsStringExt;
+    let mut out = Vec::with_capacity(s.len());
+    let b = s.as_bytes();
+    let mut i = 0;
+    while i < b.len() {
+        if b[i..].starts_with("\u{E000}".as_bytes()) {
+            out.push(0xFF);
+            i += 3;
+        } else {
+            out.push(b[i]);
+            i += 1;
+        }
+    }
+    PathBuf::from(std::ffi::OsString::from_vec(out))
+}
+
 pub fn write_file(dir: &Path, name: &str, file: &MidasFile, lz4: bool, truncate_to: Option<usize>) -> PathBuf {
     let mut bytes = file.encode();
     if let Some(n) = truncate_to {
@@ -38,7 +57,7 @@ pub fn write_file(dir: &Path, name: &str, file: &MidasFile, lz4: bool, truncate_
     if lz4 {
         bytes = lz4_frame(&bytes);
     }
-    let p = dir.join(name);
+    let p = dir.join(os_path(name));
     if let Err(e) = std::fs::write(&p, bytes) {
         simcore::driver::harness_error(&format!("cannot write simulated run file {}: {e}", p.display()));
     }
